@@ -432,7 +432,7 @@ def _shrink_one(prop: str, key: str, info: dict, conf: dict) -> dict:
     # verify in a fresh interpreter
     proc = subprocess.run([PY, "-m", "sim", "replay", out_path], env=env, cwd=VERIF, capture_output=True,
                           text=True, timeout=600)
-    reproduced = "REPRODUCED" in proc.stdout
+    reproduced = any(line.startswith("REPRODUCED") for line in proc.stdout.splitlines())
     try:
         os.remove(raw_path)
     except OSError:
